@@ -161,46 +161,44 @@ Qed.
 Lemma pad_spec es len mnl mxl vals :
   Forall2 (fun e v => conforms e v) (strip es) vals ->
   elems_wf es = true ->
-  len_ok (padded_len es len) len mnl mxl ->
-  exists r, pad_elements (marks es) len vals = Ok r /\ len_ok (zlen r) len mnl mxl /\
+  len_ok (padded_len es (pad_target len mnl)) len mnl mxl ->
+  exists r, pad_elements (marks es) (pad_target len mnl) vals = Ok r /\ len_ok (zlen r) len mnl mxl /\
             list_spec (map cfo es) r.
 Proof.
-  intros Hv Hw Hl.
+  intros Hv Hw Hl. remember (pad_target len mnl) as tgt eqn:Et.
   assert (Hn : zlen vals = zlen (strip es)) by (unfold zlen; rewrite (Forall2_len _ _ _ Hv); reflexivity).
   pose proof (classify_cases es) as Hcc. pose proof (last_opt_marks es) as Hlast.
   assert (Hplain : len_ok (zlen vals) len mnl mxl -> 
                    exists r, Ok vals = Ok r /\ len_ok (zlen r) len mnl mxl /\ list_spec (map cfo es) r).
   { intros H. exists vals. split; [reflexivity|]. split; [exact H|]. apply list_spec_vals; exact Hv. }
   unfold pad_elements. unfold padded_len in Hl. rewrite <- Hn in Hl.
-  destruct len as [k|]; [|apply Hplain; exact Hl].
+  destruct tgt as [k|]; [|apply Hplain; exact Hl].
   destruct (zlen vals <? iz k) eqn:En; [|simpl in Hl; apply Hplain; exact Hl].
   apply Z.ltb_lt in En. simpl in Hl.
   set (padding := repeat VNone (Z.to_nat (iz k - zlen vals))).
   assert (Hpl : zlen padding = iz k - zlen vals).
   { unfold padding. unfold zlen in *. rewrite repeat_length. lia. }
+  assert (Hpv : zlen (padding ++ vals) = iz k) by (unfold zlen in *; rewrite app_length; lia).
+  assert (Hvp : zlen (vals ++ padding) = iz k) by (unfold zlen in *; rewrite app_length; lia).
   destruct (last_opt (marks es)) as [[u|]|].
   - (* last element is a schema *)
     rewrite Hlast, orb_false_r in Hl.
     pose proof (marks_first es) as Hmf.
     destruct (marks es) as [|[u0|] mr] eqn:Em.
-    + rewrite <- Hmf in Hl. simpl in Hl. destruct Hl as (Hl & _). cbn in Hl. lia.
-    + rewrite <- Hmf in Hl. simpl in Hl. destruct Hl as (Hl & _). cbn in Hl. lia.
+    + rewrite <- Hmf in Hl. simpl in Hl. exists vals. split; [reflexivity|]. split; [exact Hl|].
+      apply list_spec_vals; exact Hv.
+    + rewrite <- Hmf in Hl. simpl in Hl. exists vals. split; [reflexivity|]. split; [exact Hl|].
+      apply list_spec_vals; exact Hv.
     + assert (Hf : first_ell es = true) by (rewrite <- Hmf; reflexivity).
       rewrite Hf in Hl. exists (padding ++ vals). split; auto. split.
-      * unfold zlen in *. rewrite app_length. destruct Hl as (H1 & H2 & H3). repeat split; cbn in *.
-        -- lia.
-        -- destruct mnl; cbn in *; auto. lia.
-        -- destruct mxl; cbn in *; auto. lia.
+      * rewrite Hpv. exact Hl.
       * apply list_spec_pre; auto.
         destruct (classify es) eqn:Ec; auto.
         -- congruence.
         -- destruct (exact_no_marks _ Ec Hw). congruence.
   - (* last element is ... *)
     rewrite Hlast, orb_true_r in Hl. exists (vals ++ padding). split; auto. split.
-    + unfold zlen in *. rewrite app_length. destruct Hl as (H1 & H2 & H3). repeat split; cbn in *.
-      * lia.
-      * destruct mnl; cbn in *; auto. lia.
-      * destruct mxl; cbn in *; auto. lia.
+    + rewrite Hvp. exact Hl.
     + destruct (classify es) eqn:Ec.
       * apply list_spec_post; auto.
       * apply list_spec_post; auto.
@@ -214,8 +212,12 @@ Proof.
         rewrite Hes in Hv. inversion Hv; subst. simpl.
         rewrite <- (app_nil_r padding). apply list_spec_pre; [rewrite Hes; constructor | auto].
       * destruct (exact_no_marks _ Ec Hw). congruence.
-  - (* no elements at all *)
-    subst es. simpl in Hl. destruct Hl as (Hl & _). cbn in Hl, Hn. lia.
+  - (* no elements at all: nothing to pad (the code raises IndexError on elements[-1] only when
+       a target exceeds 0 = the number of values) *)
+    exfalso. unfold pad_target in Et. subst es. cbn [first_ell last_ell rev orb] in Hl. destruct Hl as (H1 & H2 & _).
+    destruct len as [k0|].
+    + inversion Et; subst. unfold opt_holds in H1. lia.
+    + subst mnl. unfold opt_holds in H2. lia.
 Qed.
 
 (* ---- generating the concrete elements, in order ---- *)
